@@ -12,7 +12,7 @@ from fractions import Fraction
 
 from vlib import qmode, smt
 from vlib.core import Ob, Check, DISCHARGED, FAILED, UNDECIDED, ERROR, GeneratorError, guarded
-from vlib.replay import attach
+from vlib.replay import attach, settle_crash
 
 REL = Fraction(1, 10 ** 12)
 
@@ -272,6 +272,15 @@ def run(tier, seed):
                "the mathematical scaling of the exact seminorms (trusted) it transports the [0,1] exactness to every interval",
                "double-precision rounding of a + h*points for |a| >> h is outside the exact-arithmetic statement")
     chk.trust("z3 rational arithmetic", "CPython fractions / numpy object arrays")
+    add_obligations(chk, tier, seed)
+    from bounded import corner_ref
+    guarded(chk, 'bounded part corner_ref.run', corner_ref.run, chk, tier, seed)
+    return chk.finish()
+
+
+def add_obligations(chk, tier, seed):
+    """the proved part (Mode Q + symbolic-interval clauses) of the seminorm routines; also run by the C09 check, whose patch values are
+    calls of these routines (a change inside a callee is noticed only by the callee's own contract)"""
     orders12 = list(range(1, 22, 2))
     orders14 = list(range(1, 24, 2))
     tasks = [(task, ("h12", N, tier)) for N in orders12] + [(task, ("h14", N, tier)) for N in orders14]
@@ -292,6 +301,7 @@ def run(tier, seed):
             attach(ob, "from src.norms import Slobodeckij\nraises_is_violation = True\nS = Slobodeckij({n}, {m})\n"
                        "v = S.seminorm_h_1_4(lambda x: x, 0., 1.); w = S.seminorm_h_1_2(lambda x: x, 0., 1.)\nviolated = False\n".format(
                            n=N, m=min(N, 21)), True)
+            settle_crash(ob)
             chk.add(ob)
             continue
         for name, kind, val, want, ref in res:
@@ -334,9 +344,6 @@ def run(tier, seed):
     chk.vacuity = dict(orders_h12=orders12, orders_h14=orders14, ground_obligations=len(queries))
     chk.under_contract("src.norms:Slobodeckij.seminorm_h_1_2_pw")
     smt.close_pool()
-    from bounded import corner_ref
-    guarded(chk, 'bounded part corner_ref.run', corner_ref.run, chk, tier, seed)
-    return chk.finish()
 
 
 def replay_code(name):
